@@ -51,6 +51,7 @@ Inductive op :=
 | ORenameAxis (r : axref) (n : string)            (* a.axes[d].name = n   (in place) *)
 | OSetLabel (r : axref) (i : Z) (l : label) (lk : kind)   (* a.axes[d][i] = label *)
 | OSetDims (ns : list string)                     (* a.dims = (...) *)
+| OSetAxis (r : axref) (k : kind) (labs : list label) (name : option string)   (* a.set_axis(labels, axis, name=) *)
 | OIdentity                                       (* queries that only fill caches; Dataset insertion + extraction *)
 | OPercentile (qs : list Q) (scalar : bool) (kk : kind) (ax : axarg)   (* lib.stats.percentile(a, q or [q...], axis) *)
 .
@@ -116,6 +117,17 @@ Definition apply_op (ins : list darr) (o : op) (a : darr) : res value :=
       let! p := py_index (alen ax) i in
       Ok (VArr (mkarr (set_nth j {| aname := aname ax; akind := cast_kind (akind ax) lk; alab := set_nth p l (alab ax);
                                     aattrs := aattrs ax; amem := amem ax |} (axes a)) (vals a) (attrs a)))
+  | OSetAxis r k labs name =>
+      let! i := axis_info a r in
+      let ax := nth i (axes a) dax0 in
+      (* the name of another dimension (or an empty one) is refused before anything is touched *)
+      if (match name with Some n => mem_str n (remove_nth i (dims a)) || String.eqb n "" | None => false end) then Err ValueError
+      else
+      (* ax[:] = values: a single label is broadcast along the axis, as NumPy does *)
+      let labs := match labs with [l] => List.repeat l (alen ax) | _ => labs end in
+      if negb (List.length labs =? alen ax) then Err ValueError
+      else Ok (VArr (mkarr (set_nth i {| aname := match name with Some n => n | None => aname ax end; akind := cast_kind (akind ax) k;
+                                         alab := labs; aattrs := aattrs ax; amem := amem ax |} (axes a)) (vals a) (attrs a)))
   | OSetDims ns =>
       if negb (List.length ns =? List.length (axes a)) then Err ValueError
       else if negb (distinct_str ns) then Err ValueError
